@@ -5,6 +5,7 @@
 -/
 import NextestModel.Model.Sched
 import NextestModel.Thm.C08
+import NextestModel.Model.Priority
 namespace NextestModel.C14
 open NextestModel.Sched
 
@@ -380,5 +381,21 @@ example : SlotsInv [0, 2] { next := 3, free := [1] } := by
   · intro x hx; simp at hx; subst hx; decide
   · intro x hx; simp at hx; have : x = 0 ∨ x = 1 ∨ x = 2 := by omega
     rcases this with rfl | rfl | rfl <;> simp
+
+/-! ## The limits themselves -/
+
+open NextestModel.Priority in
+/-- **A configured thread count is never below 1**: whatever value is configured for test-threads or for a group's max-threads
+    — positive, or negative (counting back from the number of CPUs) by any amount — the computed limit is at least 1, so "below
+    the test-thread count, respectively the group's max-threads" is a real bound (a limit of 0 would mean "unbounded" to the
+    scheduler); 0 itself is rejected -/
+theorem thread_count_positive (ncpu : Nat) (v : Int) (n : Nat) (h : threadCount ncpu v = some n) : 1 ≤ n ∧ v ≠ 0 := by
+  unfold threadCount at h
+  split at h
+  · cases h
+  · rename_i hv
+    split at h
+    · simp only [Option.some.injEq] at h; subst h; exact ⟨by omega, hv⟩
+    · simp only [Option.some.injEq] at h; subst h; exact ⟨by omega, hv⟩
 
 end NextestModel.C14
